@@ -41,9 +41,26 @@ Example C08_nonvacuous :
   verify (snd kp) ms (unblind (fq 7) (blind_sign (fst kp) (snd kp) (fq 3) (cp_T p))) = false.
 Proof. vm_compute. auto. Qed.
 
+(** several coordinates at once: moving value d from coordinate j to coordinate i keeps a signature valid exactly when
+    (y~_i - y~_j) * d = 0; with pairwise different exponents (independent draws: C19) every such move is rejected. The general
+    multi-coordinate statement - acceptance iff <y~, m - m'> = 0 - is C07_verify_other_message; solving it without the secret
+    exponents is the discrete-log residue named in the manifest. *)
+Theorem C08_moved_value_iff : forall (K : Fld) (pk : pkey K) ms s i j d, verify pk ms s = true ->
+  (i < length ms)%nat -> (j < length ms)%nat -> (i < length (pk_y2s pk))%nat -> (j < length (pk_y2s pk))%nat -> i <> j ->
+  (verify pk (upd i (nth i ms f0 + d) (upd j (nth j ms f0 - d) ms)) s = true <->
+   (nth i (pk_y2s pk) f0 - nth j (pk_y2s pk) f0) * d = f0).
+Proof. exact moved_value_iff. Qed.
+Theorem C08_moved_value_rejected : forall (K : Fld) (pk : pkey K) ms s i j d, verify pk ms s = true ->
+  (i < length ms)%nat -> (j < length ms)%nat -> (i < length (pk_y2s pk))%nat -> (j < length (pk_y2s pk))%nat -> i <> j ->
+  nth i (pk_y2s pk) f0 <> nth j (pk_y2s pk) f0 -> d <> f0 ->
+  verify pk (upd i (nth i ms f0 + d) (upd j (nth j ms f0 - d) ms)) s = false.
+Proof. exact moved_value_rejected. Qed.
+
 Print Assumptions C08_vbm_only_from_verifying_proof.
 Print Assumptions C08_rejected_request_yields_nothing.
 Print Assumptions C08_request_sign_unblind.
 Print Assumptions C08_signature_on_no_other_message.
 Print Assumptions C08_other_message_iff.
 Print Assumptions C08_nonvacuous.
+Print Assumptions C08_moved_value_iff.
+Print Assumptions C08_moved_value_rejected.
